@@ -36,6 +36,9 @@ func Judge(prop string, p *sdl.Program, cfg map[string]string, runs []*Obs) []Vi
 				}
 				return w.CheckCycles(out, o)
 			})
+		} else {
+			// with substituting processors start-up may legitimately fail, but it terminates
+			perRun(func(o *Obs) []Violation { return w.CheckTermination(o, "C02") })
 		}
 	case "C03":
 		perRun(func(o *Obs) []Violation { return w.CheckIdentity(o, "C03") })
